@@ -95,10 +95,7 @@ func RunC01(rep *report.Report, tier string) {
 	}
 	letters := Alphabet(c01Letters...)
 	rep.Set("alphabet", Names(letters))
-	for _, nofwd := range []bool{false, true} {
-		o := &Options{Letters: letters, NoFwdRefs: nofwd, Checks: Checks{Fold: true}}
-		Search(rep, fmt.Sprintf("rib/forward-refs-%v", !nofwd), o, depth, ck.Next())
-	}
+	// cheapest searches first: what a search does not use of its share of the budget rolls over to the later ones
 	for _, name := range []string{"held-operations", "groups-installed", "entries-installed"} {
 		o := &Options{Letters: letters, Checks: Checks{Fold: true}, Init: Alphabet(ribInits[name]...)}
 		Search(rep, "rib/from-"+name, o, depth-1, ck.Next())
@@ -107,6 +104,10 @@ func RunC01(rep *report.Report, tier string) {
 	o := &Options{Letters: letters, Checks: Checks{Fold: true}, Init: Alphabet(ribInits["held-operations"]...)}
 	Search(rep, "rib/from-held-operations/descending-map-order", o, depth-1, ck.Next())
 	rt.MapOrder = 0
+	for _, nofwd := range []bool{true, false} {
+		o := &Options{Letters: letters, NoFwdRefs: nofwd, Checks: Checks{Fold: true}}
+		Search(rep, fmt.Sprintf("rib/forward-refs-%v", !nofwd), o, depth, ck.Next())
+	}
 }
 
 // ribInits are non-initial start states shared by the RIB-tier searches.
@@ -177,14 +178,14 @@ func RunC02(rep *report.Report, tier string) {
 		Merge(rep, fmt.Sprintf("arrival-orders/%s/forward-refs-true/descending-map-order", g), res, len(ls))
 	}
 	rt.MapOrder = 0
-	for _, nofwd := range []bool{false, true} {
-		o := &Options{Letters: letters, NoFwdRefs: nofwd, Checks: Checks{Resolve: true, Fold: true}}
-		Search(rep, fmt.Sprintf("mixed/forward-refs-%v", !nofwd), o, depth, ck.Next())
-	}
 	// from non-initial states: a DELETE that must be refused needs an installed chain first
 	for _, name := range []string{"groups-installed", "cross-instance"} {
 		o := &Options{Letters: letters, Checks: Checks{Resolve: true, Fold: true}, Init: Alphabet(c03Inits[name]...)}
 		Search(rep, "mixed/from-"+name, o, depth, ck.Next())
+	}
+	for _, nofwd := range []bool{true, false} {
+		o := &Options{Letters: letters, NoFwdRefs: nofwd, Checks: Checks{Resolve: true, Fold: true}}
+		Search(rep, fmt.Sprintf("mixed/forward-refs-%v", !nofwd), o, depth, ck.Next())
 	}
 }
 
@@ -210,16 +211,9 @@ func RunC03(rep *report.Report, tier string) {
 	names = append(names, "ADD nhg1@D {1,1}")
 	letters := Alphabet(names...)
 	rep.Set("alphabet", Names(letters))
-	for _, nofwd := range []bool{false, true} {
-		o := &Options{Letters: letters, NoFwdRefs: nofwd, Checks: Checks{Referrers: true}}
-		d := depth
-		if tier != "thorough" && !nofwd {
-			d = depth - 1 // the searches from non-initial states below go deeper where it matters
-		}
-		Search(rep, fmt.Sprintf("rib/forward-refs-%v", !nofwd), o, d, ck.Next())
-	}
 	// from non-initial states: all next-hops and groups installed / additionally every top-level entry installed
-	for name, init := range c03Inits {
+	for _, name := range []string{"groups-installed", "entries-installed", "cross-instance"} {
+		init := c03Inits[name]
 		o := &Options{Letters: letters, Checks: Checks{Referrers: true}, Init: Alphabet(init...)}
 		Search(rep, "rib/from-"+name, o, depth-1, ck.Next())
 	}
@@ -229,6 +223,14 @@ func RunC03(rep *report.Report, tier string) {
 		Search(rep, "rib/from-"+name+"/descending-map-order", o, depth-1, ck.Next())
 	}
 	rt.MapOrder = 0
+	for _, nofwd := range []bool{true, false} {
+		o := &Options{Letters: letters, NoFwdRefs: nofwd, Checks: Checks{Referrers: true}}
+		d := depth
+		if tier != "thorough" && !nofwd {
+			d = depth - 1 // the searches from non-initial states above go deeper where it matters
+		}
+		Search(rep, fmt.Sprintf("rib/forward-refs-%v", !nofwd), o, d, ck.Next())
+	}
 }
 
 var c03Inits = map[string][]string{
@@ -255,8 +257,6 @@ func RunC16(rep *report.Report, tier string) {
 	letters := Alphabet(c16Letters...)
 	rep.Set("alphabet", Names(letters))
 	for _, hc := range []HookConfig{HookAfterNIs, HookBeforeNIs} {
-		o := &Options{Letters: letters, Checks: Checks{Hooks: true}, Hook: hc}
-		Search(rep, fmt.Sprintf("rib/hook-config-%d", hc), o, depth, ck.Next())
 		for _, name := range []string{"held-operations", "entries-installed"} {
 			o := &Options{Letters: letters, Checks: Checks{Hooks: true}, Hook: hc, Init: Alphabet(ribInits[name]...)}
 			Search(rep, fmt.Sprintf("rib/hook-config-%d/from-%s", hc, name), o, depth-1, ck.Next())
@@ -271,7 +271,11 @@ func RunC16(rep *report.Report, tier string) {
 	// resolved-entry hook (runs in its own goroutine): whole histories under the controlled runtime
 	rl := Alphabet("ADD nh1@D a", "ADD nhg1@D {1}", "ADD nh1@V", "ADD nhg1@V {1}", "ADD v4 p@D ->1", "ADD v4 p@D ->1 meta", "ADD v4 p@D ->1@V", "DELETE v4 p@D", "ADD v4 p@V ->1",
 		"ADD v6 q@D ->1", "DELETE v6 q@D", "ADD mpls 100@D ->1", "DELETE mpls 100@D", "DELETE nhg1@D", "FLUSH D", "FLUSH all")
-	for name, d := range map[string]int{"": depth - 1, "held-operations": depth - 2, "entries-installed": depth - 2} {
+	for _, name := range []string{"held-operations", "entries-installed", ""} {
+		d := depth - 2
+		if name == "" {
+			d = depth - 1
+		}
 		o := &Options{Letters: rl}
 		label := "resolved-entry-hook/from-empty"
 		if name != "" {
@@ -280,6 +284,11 @@ func RunC16(rep *report.Report, tier string) {
 		}
 		res := mc.BFS(mc.Config{Letters: Names(rl), New: NewResolved(o), MaxDepth: d, Deadline: ck.Next(), Workers: 1})
 		Merge(rep, label, res, d)
+	}
+	// the two largest searches last
+	for _, hc := range []HookConfig{HookAfterNIs, HookBeforeNIs} {
+		o := &Options{Letters: letters, Checks: Checks{Hooks: true}, Hook: hc}
+		Search(rep, fmt.Sprintf("rib/hook-config-%d", hc), o, depth, ck.Next())
 	}
 }
 
@@ -300,10 +309,10 @@ func RunC07Hist(rep *report.Report, tier string) {
 	}
 	letters := Alphabet(c07Letters...)
 	rep.Set("history_alphabet", Names(letters))
-	o := &Options{Letters: letters, Checks: Checks{GetFold: true}}
-	Search(rep, "get-after-every-step/from-empty", o, depth, ck.Next())
 	for _, name := range []string{"entries-installed", "held-operations"} {
 		o := &Options{Letters: letters, Checks: Checks{GetFold: true}, Init: Alphabet(ribInits[name]...)}
 		Search(rep, "get-after-every-step/from-"+name, o, depth, ck.Next())
 	}
+	o := &Options{Letters: letters, Checks: Checks{GetFold: true}}
+	Search(rep, "get-after-every-step/from-empty", o, depth, ck.Next())
 }
